@@ -25,6 +25,7 @@ HEADER = ('From Coq Require Import ZArith QArith List Bool. Import ListNotations
 FUEL = 500
 SIG_CROSS = 'C10:cross-clock-order-follows-physical-time'
 SIG_DUP = 'C10:nrt-two-pending-wakeups-after-reschedule'
+SIG_NEG = 'C10:task-before-score-start-not-sendable-in-nrt'
 NREQ = 21
 
 
@@ -272,6 +273,10 @@ SETBEATS_PROG = {'tempos': ['4'], 'bodies': [[['P', 1, ['T', 0]], ['P', 2, ['T',
                                             [['Y', '1/4'], ['Y', '1/4'], ['sb', 0, '0'], ['Y', '1/4'], ['S', '0', [['m', 1]]], ['Y', '1/2'], ['S', '0', [['m', 2]]]],
                                             [['Y', '3/4'], ['S', '0', [['m', 3]]], ['Y', '1/4'], ['S', '0', [['m', 4]]]]],
                  'nconds': 0, 'nflows': 0, 'mseed': 1, 'tail': '0', 'shared': [], 'order_clocks': [['T', 0]]}
+# a forward jump of the clock's beats moves the pending task of routine 1 to -77/8 s, before the start of the score
+NEG_PROG = {'tempos': ['1'], 'bodies': [[['P', 1, ['T', 0]], ['Y', '1/8'], ['sb', 0, '10'], ['Y', '1/8']],
+                                       [['Y', '1/4'], ['S', None, [['m', 1]]], ['Y', '1/4']]],
+            'nconds': 0, 'nflows': 0, 'mseed': 1, 'tail': '0', 'shared': []}
 FIXED = [
     DUP_PROG,
     # the example of the documentation guide, inheritance and re-seeding, pause/resume, flow variable across clocks
@@ -284,6 +289,7 @@ FIXED = [
     SEEDS_PROG,
     STORM_PROG,
     SETBEATS_PROG,
+    NEG_PROG,
 ]
 
 
@@ -843,6 +849,32 @@ def correspond(ctx):
                 c.known_demonstrated.append((SIG_CROSS, text))
     except fw.ImplError as e:
         c.notes.append('cross-clock experiment not run: %s' % str(e)[:200])
+
+    # (c2) a task moved before the start of the score (rt_nrt_before_start_refuted): RT sends, NRT cannot pack the timetag
+    try:
+        W = run_rt(ctx, [NEG_PROG], k=7)[0]
+        a = A[FIXED.index(NEG_PROG)]
+        if W.get('completed') and 'fatal' not in W and 'fatal' not in a:
+            rc, out = ctx.coq('neg', HEADER + 'Definition cases := [%s].\n' % rt_item(NEG_PROG, W) +
+                              'Eval vm_compute in map (fun c => match c with (p, tab, off, t0, sch, evs, vals) => xrt_compare tab off p t0 sch evs vals end) cases.')
+            codes = fw.parse_nat_list(out) if rc == 0 else None
+            if codes != [0] and codes != [3]:
+                c.failures.append(Failure('correspondence', 'the RT model does not reproduce the before-start execution recorded on the real library (code %s)' % codes,
+                                          replay={'program': NEG_PROG, 'observed': W}))
+            nrt_raised = ['end', 1, 1, True] in a.get('events', [])
+            rt_sent = any(e[0] == 'send' and e[1] == [1, 1] and e[5] is not None for e in W.get('events', []))
+            rt_raised = any(e[0] == 'end' and e[3] for e in W.get('events', []))
+            c.count('before-start experiment: NRT send %s, RT send %s' % ('raises' if nrt_raised else 'does not raise', 'goes out' if rt_sent and not rt_raised else 'fails'))
+            if nrt_raised and rt_sent and not rt_raised:
+                text = ('a forward jump of TempoClock.beats moves a pending task to logical time -77/8 s (before the start): real time performs it at once and the '
+                        'bundle goes out, the non-real-time score cannot pack the negative timetag (OscBundleBuildError) and the routine ends')
+                c.notes.append('rt_nrt_before_start_refuted reproduced on the real library (signature %s): %s' % (SIG_NEG, text))
+                c.known_demonstrated.append((SIG_NEG, text))
+            else:
+                c.failures.append(Failure('correspondence', 'before-start witness (theorem rt_nrt_before_start_refuted) not reproduced: NRT raised=%s RT sent=%s RT raised=%s' % (nrt_raised, rt_sent, rt_raised),
+                                          replay={'program': NEG_PROG, 'observed': W, 'nrt': a}))
+    except fw.ImplError as e:
+        c.notes.append('before-start experiment not run: %s' % str(e)[:200])
 
     # (d) the quantisation API of TempoClock (logged values; no model)
     quant_part(ctx, c)
